@@ -740,6 +740,28 @@ static void do_congruence(uint64_t &caseno, std::set<uint64_t> &nontriv) {
   std::function<bool(const cg_t &)> trivial = [](const cg_t &x) {
     return x.is_bottom() || x.is_top();
   };
+  // Results become operands: the alphabet is closed once under the arithmetic operators, which adds the
+  // representations only the implementation produces (negative moduli from divisions by negative constants,
+  // unreduced remainders); they are used by the operator tables and the lattice tables below.
+  {
+    std::set<std::string> have;
+    for (auto &v : vals) have.insert(show(v.v));
+    size_t base = vals.size();
+    for (size_t i = 0; i < base && vals.size() < base + 80; i++)
+      for (size_t j = 0; j < base && vals.size() < base + 80; j++)
+        for (size_t o = 0; o < 7; o++) { // + - * / % SDiv SRem
+          cg_t r = cg_t::top();
+          try {
+            r = ops[o].abs(vals[i].v, vals[j].v);
+          } catch (std::runtime_error &) {
+            continue;
+          }
+          if (r.is_bottom() || r.is_top()) continue;
+          std::string k = show(r);
+          if (have.insert(k).second) vals.push_back({r, "(" + vals[i].name + ops[o].name + vals[j].name + ")=" + k, {}});
+        }
+    fill_members(vals, contains);
+  }
   run_binops<cg_t>("congruence", vals, ops, contains, trivial, caseno, nontriv);
   Lattice<cg_t> L;
   L.join = [](const cg_t &a, const cg_t &b) { return a | b; };
